@@ -13,6 +13,7 @@ CT_FUNCS = [('secp256k1_scalar_is_zero', []), ('secp256k1_scalar_cmov', []), ('s
             ('secp256k1_scalar_add', ['secp256k1_scalar_check_overflow'], ['secp256k1_scalar_reduce'], 'bind'), ('secp256k1_scalar_half', [], [], 'bind'), ('secp256k1_scalar_eq', []),
             ('secp256k1_fe_impl_mul_int_unchecked', []), ('secp256k1_fe_impl_to_storage', []), ('secp256k1_fe_impl_from_storage', []), ('secp256k1_fe_impl_get_b32', []),
             ('secp256k1_fe_impl_set_b32_limit', [], ['secp256k1_fe_impl_set_b32_mod']),
+            ('secp256k1_scalar_set_b32', ['secp256k1_scalar_check_overflow'], ['secp256k1_read_be64', 'secp256k1_scalar_reduce'], 'bind'), ('secp256k1_scalar_get_b32', [], ['secp256k1_write_be64']),
             ('secp256k1_scalar_mul_512', []), ('secp256k1_scalar_sqr_512', []),
             ('secp256k1_scalar_reduce_512', ['secp256k1_scalar_check_overflow'], ['secp256k1_scalar_reduce'], 'bind')]
 # the 32-bit-limb scalar code (compiled only with USE_FORCE_WIDEMUL_INT64 / on 32-bit targets), translated in bind style
@@ -54,12 +55,21 @@ K64_FUNCS = [dict(fn='secp256k1_scalar_check_overflow', short='scalar_check_over
              dict(fn='secp256k1_scalar_reduce_512', short='scalar_reduce_512', key='k64_reduce_512', style='bind', deps=['k64_check_overflow'], inl=['secp256k1_scalar_reduce']),
              dict(fn='secp256k1_scalar_mul', short='scalar_mul', key='scalar_mul', style='bind', cps=['scalar_mul_512b', 'k64_reduce_512']),
              dict(fn='secp256k1_scalar_sqr', short='scalar_sqr', key='scalar_sqr', style='bind', cps=['scalar_sqr_512b', 'k64_reduce_512'])]
+# group law on top of the field kernel: the field functions once more as separately translated callees, point doubling as calls to them
+FIELD_CALLEES = ['k64_fe_mul_inner', 'k64_fe_sqr_inner', 'k64_fe_add', 'k64_fe_negate', 'k64_fe_half', 'k64_fe_mul_int']
+K64_FUNCS += [dict(fn='secp256k1_fe_mul_inner', short='fe_mul_inner', key='k64_fe_mul_inner'), dict(fn='secp256k1_fe_sqr_inner', short='fe_sqr_inner', key='k64_fe_sqr_inner'),
+              dict(fn='secp256k1_fe_impl_add', short='fe_impl_add', key='k64_fe_add'), dict(fn='secp256k1_fe_impl_negate_unchecked', short='fe_impl_negate_unchecked', key='k64_fe_negate'),
+              dict(fn='secp256k1_fe_impl_half', short='fe_impl_half', key='k64_fe_half'), dict(fn='secp256k1_fe_impl_mul_int_unchecked', short='fe_impl_mul_int_unchecked', key='k64_fe_mul_int'),
+              dict(fn='secp256k1_gej_double', short='gej_double', key='gej_double', style='bind', flatten=True, cps=FIELD_CALLEES, inl=['secp256k1_fe_impl_mul', 'secp256k1_fe_impl_sqr'])]
 K64_PROOFS = [('scalar_mul_512b', 'Kernel/ScalarMul4x64.vo', 'scalar_mul_512b_wp'), ('scalar_sqr_512b', 'Kernel/ScalarMul4x64.vo', 'scalar_sqr_512b_wp'),
-              ('scalar_mul', 'Kernel/ScalarMul.vo', 'scalar_mul_correct'), ('scalar_sqr', 'Kernel/ScalarMul.vo', 'scalar_sqr_correct')]
+              ('scalar_mul', 'Kernel/ScalarMul.vo', 'scalar_mul_correct'), ('scalar_sqr', 'Kernel/ScalarMul.vo', 'scalar_sqr_correct'),
+              ('gej_double', 'Kernel/GejDouble.vo', 'gej_double_correct')]
 PROOFS = {'secp256k1_fe_mul_inner': ('Kernel/Field5x52.vo', 'fe_mul_inner_correct'),
           'secp256k1_fe_sqr_inner': ('Kernel/Field5x52Sqr.vo', 'fe_sqr_inner_correct')}
 # proofs over the regenerated branch-free primitives: (function, .vo, theorem)
-CT_PROOFS = [('secp256k1_fe_impl_set_b32_limit', 'Kernel/FieldSetB32.vo', 'fe_set_b32_limit_correct'),
+CT_PROOFS = [('secp256k1_fe_impl_set_b32_limit', 'Kernel/FieldSetB32.vo', 'fe_set_b32_limit_correct'), ('secp256k1_fe_impl_get_b32', 'Kernel/FieldGetB32.vo', 'fe_get_b32_correct'),
+             ('secp256k1_scalar_set_b32', 'Kernel/ScalarB32.vo', 'scalar_set_b32_correct'), ('secp256k1_scalar_get_b32', 'Kernel/ScalarB32.vo', 'scalar_get_b32_correct'),
+             ('secp256k1_scalar_eq', 'Kernel/SmallPrims.vo', 'scalar_eq_correct'), ('secp256k1_int_cmov', 'Kernel/SmallPrims.vo', 'int_cmov_correct'), ('secp256k1_fe_impl_is_odd', 'Kernel/SmallPrims.vo', 'fe_is_odd_correct'),
              ('secp256k1_fe_impl_mul_int_unchecked', 'Kernel/MorePrims.vo', 'fe_mul_int_correct'), ('secp256k1_fe_impl_to_storage', 'Kernel/MorePrims.vo', 'fe_to_storage_correct'),
              ('secp256k1_fe_impl_from_storage', 'Kernel/MorePrims.vo', 'fe_from_storage_correct'), ('secp256k1_scalar_cond_negate', 'Kernel/MorePrims.vo', 'scalar_cond_negate_correct'),
              ('secp256k1_fe_impl_normalize_weak', 'Kernel/FieldNormalize2.vo', 'fe_normalize_weak_correct'), ('secp256k1_fe_impl_normalizes_to_zero', 'Kernel/FieldNormalize2.vo', 'fe_normalizes_to_zero_correct'),
@@ -128,7 +138,7 @@ def regenerate(funcs=None):
         path = os.path.join(gen, d['short'] + '.v')
         try:
             if any(x not in specs for x in d['deps'] + d['cps']): raise c2coq.Unsupported('a function it calls could not be translated')
-            text, ins, outs = c2coq.translate(vlib.REPO, fn, defines=d['defines'], callees={specs[x][1]: specs[x][0] for x in d['deps']},
+            text, ins, outs = c2coq.translate(vlib.REPO, fn, defines=d['defines'], flatten=d.get('flatten', False), callees={specs[x][1]: specs[x][0] for x in d['deps']},
                                               requires=[specs[x][2] for x in d['deps'] + d['cps']], cps={specs[x][1]: (specs[x][2],) + specs[x][3] for x in d['cps']}, inlines=d['inl'], style=d['style'], short=d['short'],
                                               callee_names={specs[x][1]: specs[x][2] for x in d['deps']})
             L = c2coq.translate.last
@@ -156,7 +166,7 @@ def limb_cases(rng, n, nin):
 RAW_SHAPES = {   # input shapes of the raw ops: S scalar limbs (4 x u64), F field limbs (5), T storage limbs (4), I flag, M magnitude, P non-negative int
  'scalar_is_zero': 'S', 'scalar_cmov': 'SSI', 'fe_impl_cmov': 'FFI', 'fe_storage_cmov': 'TTI', 'int_cmov': 'PPI', 'scalar_check_overflow': 'S',
  'scalar_is_high': 'S', 'scalar_cond_negate': 'sI', 'scalar_negate': 's', 'fe_impl_normalize': 'F', 'fe_impl_normalize_weak': 'F',
- 'fe_impl_normalizes_to_zero': 'F', 'fe_impl_negate_unchecked': 'fM', 'fe_impl_add': 'ff', 'fe_impl_half': 'f', 'fe_impl_is_odd': '1', 'scalar_mul_512': 'SS', 'scalar_sqr_512': 'S', 'scalar_reduce_512': 'SS', 'fe_impl_set_b32_limit': 'B', 'scalar_add': 'ss', 'scalar_half': 's', 'scalar_mul_512b': 'SS', 'scalar_sqr_512b': 'S', 'scalar_mul': 'SS', 'scalar_sqr': 'S'}
+ 'fe_impl_normalizes_to_zero': 'F', 'fe_impl_negate_unchecked': 'fM', 'fe_impl_add': 'ff', 'fe_impl_half': 'f', 'fe_impl_is_odd': '1', 'scalar_mul_512': 'SS', 'scalar_sqr_512': 'S', 'scalar_reduce_512': 'SS', 'fe_impl_set_b32_limit': 'B', 'fe_impl_get_b32': 'F', 'gej_double': 'Iggg', 'scalar_eq': 'SE', 'scalar_set_b32': 'N', 'scalar_get_b32': 'S', 'scalar_add': 'ss', 'scalar_half': 's', 'scalar_mul_512b': 'SS', 'scalar_sqr_512b': 'S', 'scalar_mul': 'SS', 'scalar_sqr': 'S'}
 N_LIMBS = [0xBFD25E8CD0364141, 0xBAAEDCE6AF48A03B, 0xFFFFFFFFFFFFFFFE, 0xFFFFFFFFFFFFFFFF]
 def raw_inputs(rng, shape):
     v = []
@@ -178,6 +188,17 @@ def raw_inputs(rng, shape):
             P_ = (1 << 256) - (1 << 32) - 977
             x = rng.choice([P_, P_ - 1, P_ + 1, P_ - rng.bits(32), (1 << 256) - 1, (1 << 256) - (1 << 104) + rng.bits(52), (1 << 256) - 1 - (rng.bits(52) << 52), rng.bits(256), 0, 1, P_ - (1 << 52), ((1 << 256) - 1) ^ (rng.bits(52) << (52 * rng.below(5)))]) % (1 << 256)
             v += list(x.to_bytes(32, 'big'))
+        elif ch == 'N':      # 32 bytes: big-endian strings around the group order
+            N_ = 0xFFFFFFFFFFFFFFFFFFFFFFFFFFFFFFFEBAAEDCE6AF48A03BBFD25E8CD0364141
+            x = rng.choice([N_, N_ - 1, N_ + 1, N_ - rng.bits(64), N_ + rng.bits(64), (1 << 256) - 1, (1 << 256) - 1 - rng.bits(128), rng.bits(256), 0, 1, N_ ^ (1 << rng.below(256)), N_ - (1 << (64 * rng.below(4)))]) % (1 << 256)
+            v += list(x.to_bytes(32, 'big'))
+        elif ch == 'E':      # a second scalar that is equal to the previous four limbs or differs from them in one bit of one limb
+            prev = v[-4:]; c = rng.below(3)
+            if c == 0: v += prev
+            elif c == 1: j = rng.below(4); v += [x ^ (1 << rng.below(64)) if i == j else x for i, x in enumerate(prev)]
+            else: v += [rng.bits(64) for _ in range(4)]
+        elif ch == 'g':      # coordinates of a Jacobian point within the group code's magnitude contract (limbs below 2^55, top below 2^52)
+            v += [rng.choice([0, 1, (1 << 52) - 1, (1 << 55) - 1, 0xFFFFEFFFFFC2F, 8 * ((1 << 52) - 1), rng.bits(52), rng.bits(55)]) for _ in range(4)] + [rng.choice([0, (1 << 48) - 1, (1 << 52) - 1, 8 * ((1 << 48) - 1), rng.bits(48), rng.bits(52)])]
         elif ch == '1': v.append(rng.bits(52))
         elif ch == 'I': v.append(rng.below(2))
         elif ch == 'M': v.append(8)
